@@ -74,6 +74,7 @@ class Driver:
         self.clock.install()
         self.typed = next(c for c in dictx.command_classes() if c09.class_key(c) == "s6a.UpdateLocationAnswer")
         self.k = 0
+        self.live = []
 
     def new_session(self, identity):
         from bromelia.avps import SessionIdAVP, AcctMultiSessionIdAVP
@@ -84,12 +85,22 @@ class Driver:
         if route == 1:
             return AcctMultiSessionIdAVP(identity).data, "AcctMultiSessionIdAVP(str)"
         msg = self.typed(session_id=identity)
+        self.live.append(msg)
         return msg.session_id_avp.data, "typed message"
 
     def reoriginate(self, prev, identity):
+        """bulk origin update of a message whose Session-Id belongs to identity `prev`: preferably a live message
+        whose Session-Id this process generated earlier (so chains A -> B -> A on one message occur), else a
+        message carrying a Session-Id received from elsewhere"""
         from bromelia.base import DiameterMessage
         from bromelia.avps import SessionIdAVP, OriginHostAVP, OriginRealmAVP
-        msg = DiameterMessage(avps=[SessionIdAVP(f"{prev};5;5;x".encode()), OriginHostAVP(prev), OriginRealmAVP("example")])
+        live = [m for m in self.live if m.session_id_avp.data.startswith(prev.encode() + b";")]
+        if live and self.k % 4 != 3:
+            msg = live[-1] if self.k % 2 else live[0]
+        else:
+            msg = DiameterMessage(avps=[SessionIdAVP(f"{prev};5;5;x".encode()), OriginHostAVP(prev), OriginRealmAVP("example")])
+            self.live.append(msg)
+        self.k += 1
         msg.update_avps({"origin_host": identity})
         if msg.origin_host_avp.data != identity.encode():
             raise RuntimeError("origin host not updated")
@@ -98,6 +109,7 @@ class Driver:
     def run(self, ops):
         """ops: list of ('new', i) / ('re', p, i) / ('tick',); returns gens records + problems"""
         self.clock.restart_process()
+        self.live = []
         gens, problems = [], []
         for op in ops:
             if op[0] == "tick":
@@ -205,6 +217,25 @@ Vecs == SetToSeq(Seqs)
         meta.append({"kind": "random-history", "seed": rep.seed, "index": t, "problems": problems[:3],
                      "dups": [g["raw"] for i, g in enumerate(gens) if g["raw"] in {x["raw"] for x in gens[:i]}][:3]})
         rep.case(("T", t))
+    # one history with more generations than 16 bits can count (cheap route only)
+    from bromelia.avps import SessionIdAVP
+    drv.clock.restart_process()
+    gens = []
+    nlong = 70000 if rep.tier == "quick" else 300000
+    for i in range(nlong):
+        ident = "AB"[(i * 7 + i // 3) % 2]
+        if i % 20000 == 19999:
+            drv.clock.t += 1
+        hl = parse_sid(SessionIdAVP(IDS[ident]).data, IDS[ident])
+        gens.append({"identity": ident, "out": [ident, hl[0] - 1000 if hl else -1, hl[1] if hl else i], "wf": hl is not None})
+    recs.append({"gens": gens, "clean": True})
+    seen, dups = set(), []
+    for g in gens:
+        if tuple(g["out"]) in seen and len(dups) < 3:
+            dups.append(g["out"])
+        seen.add(tuple(g["out"]))
+    meta.append({"kind": "long-history", "generations": nlong, "problems": [], "dups": dups})
+    rep.case(("T", "long"))
     bad, res = vectors.validate("Trace_SessionLong", ["Naturals", "Sequences", "FiniteSets", "SequencesExt"], inst, recs, ok_expr, java_opts=("-Xmx6g",), timeout=1500)
     rep.tlc("Trace_SessionLong", res)
     rep.traces_validated += len(recs)
